@@ -88,9 +88,41 @@ def gen_contention(r) -> Dict[str, Any]:
             "nsig": 0, "liq": ["25", "0"], "scarce": False, "variant": "contention", "shared_lists": r.random() < 0.5}
 
 
+def gen_loans(r) -> Dict[str, Any]:
+    """Short sales that each borrow exactly their amount (the account holds no base asset), so several loans of the
+    same size and different age are open when an auto-repay buy can afford to repay just one of them: which one is
+    repaid (and so the interest paid) must not vary from run to run."""
+    npairs = r.choice([1, 2])
+    pairs = [f"{n}/USD" for n in ["AAA", "BBB"][:npairs]]
+    ndays = r.randint(8, 14)
+    bars = {p: [[d, str(100 + 3 * d + 40 * i), str(104 + 3 * d + 40 * i), str(97 + 3 * d + 40 * i), str(101 + 3 * d + 40 * i), "1000"]
+                for d in range(1, ndays + 1)] for i, p in enumerate(pairs)}
+    setup = [["src", p] for p in pairs] + [["sub", p] for p in pairs] + [["order_events"]]
+    r.shuffle(setup)
+    scripts: Dict[str, List[List[Dict[str, Any]]]] = {}
+    for p in pairs:
+        inv = []
+        for d in range(ndays + 2):
+            acts = []
+            x = r.random()
+            if d < ndays // 2 and x < 0.7:
+                acts.append({"a": "order", "pair": r.choice(pairs), "kind": "market", "side": "sell", "amount": "1", "px": "1",
+                             "px2": "1", "auto_borrow": True, "auto_repay": False})
+            elif d >= ndays // 2 and x < 0.6:
+                acts.append({"a": "order", "pair": r.choice(pairs), "kind": "market", "side": "buy", "amount": "1", "px": "1",
+                             "px2": "1", "auto_borrow": False, "auto_repay": True})
+            inv.append(acts)
+        scripts["bar:" + p] = inv
+    return {"pairs": pairs, "bars": bars, "setup": setup, "scripts": scripts, "suspend": False, "lend": True, "nsig": 0,
+            "liq": None, "scarce": True, "no_base": True, "variant": "loans", "shared_lists": r.random() < 0.5}
+
+
 def gen(r) -> Dict[str, Any]:
-    if r.random() < 0.15:
+    x0 = r.random()
+    if x0 < 0.15:
         return gen_contention(r)
+    if x0 < 0.23:
+        return gen_loans(r)
     npairs = r.choice([1, 2, 3, 3, 4, 5, 6])
     names = ["AAA", "BBB", "CCC", "DDD", "EEE", "FFF"][:npairs]
     pairs = [f"{n}/USD" for n in names]
@@ -176,8 +208,10 @@ def build_bar_lists(sc: Dict[str, Any]) -> Dict[str, list]:
 
 
 class OneRun:
-    def __init__(self, sc: Dict[str, Any], max_concurrent: int, shared_lists: Optional[Dict[str, list]] = None):
+    def __init__(self, sc: Dict[str, Any], max_concurrent: int, shared_lists: Optional[Dict[str, list]] = None,
+                 shared_lending: Optional[list] = None):
         self.sc = sc
+        self.shared_lending = shared_lending
         self.mc = max_concurrent
         self.shared_lists = shared_lists
         self.orders: List[Dict[str, Any]] = []      # creation order
@@ -200,16 +234,23 @@ class OneRun:
         d = dispatcher.backtesting_dispatcher(max_concurrent=self.mc)
         kw: Dict[str, Any] = {"liquidity_strategy_factory": liquidity.InfiniteLiquidity}
         if sc["lend"]:
-            kw["lending_strategy"] = lending.MarginLoans("USD", default_conditions=lending.MarginLoanConditions(
-                interest_symbol="USD", interest_percentage=D("7"), interest_period=datetime.timedelta(days=365),
-                min_interest=D("0.01"), margin_requirement=D("0.2")))
+            # the lending strategy is a configuration object: a sweep over pool sizes / repeated runs may hand the same
+            # instance to every new exchange
+            ls = self.shared_lending[0] if self.shared_lending else None
+            if ls is None:
+                ls = lending.MarginLoans("USD", default_conditions=lending.MarginLoanConditions(
+                    interest_symbol="USD", interest_percentage=D("7"), interest_period=datetime.timedelta(days=365),
+                    min_interest=D("0.01"), margin_requirement=D("0.2")))
+                if self.shared_lending is not None:
+                    self.shared_lending.append(ls)
+            kw["lending_strategy"] = ls
         if sc.get("liq"):
             lim, imp = D(sc["liq"][0]), D(sc["liq"][1])
             kw["liquidity_strategy_factory"] = lambda: liquidity.VolumeShareImpact(lim, imp)
         # scarce funds: handlers compete for the same balance, so the order in which they run becomes observable
         init = {"USD": D("1500") if sc.get("scarce") else D("10000000")}
         for p in sc["pairs"]:
-            init[p.split("/")[0]] = D("1") if sc.get("scarce") else D("3")
+            init[p.split("/")[0]] = D("0") if sc.get("no_base") else D("1") if sc.get("scarce") else D("3")
         e = exchange.Exchange(d, init, **kw)
         pairs = {}
         for p in sc["pairs"]:
@@ -405,9 +446,10 @@ def evaluate(sc: Dict[str, Any], res: ShardResult, key: str) -> Dict[str, str]:
     cross = 0
     saw_look_ahead = False
     shared = build_bar_lists(sc) if sc.get("shared_lists") else None
+    shared_lending: Optional[list] = [] if sc["lend"] and sc.get("shared_lists") else None
     for mc in POOLS:
         for rep in range(2):
-            r = OneRun(sc, mc, shared).run()
+            r = OneRun(sc, mc, shared, shared_lending).run()
             res.count("backtests")
             if r.outcome != "ok":
                 res.violate(Violation("C03", "backtest_failed", f"max_concurrent={mc}: {r.outcome}", scenario=sc))
@@ -436,7 +478,7 @@ def evaluate(sc: Dict[str, Any], res: ShardResult, key: str) -> Dict[str, str]:
                         mechanism=classify(sc, min(mc, ref_mc)) if saw_look_ahead else ""))
                 res.count("digest_comparisons")
     res.evaluations += 1
-    if (len(sc["pairs"]) > 1 and cross and total_fills) or (sc.get("variant") == "contention" and total_fills):
+    if (len(sc["pairs"]) > 1 and cross and total_fills) or (sc.get("variant") in ("contention", "loans") and total_fills):
         shape = [len(sc["pairs"]), [s[0] for s in sc["setup"]], sc["suspend"], sc["lend"], sc["nsig"], sc.get("scarce"), sc.get("variant"),
                  sorted((k, sum(len(a) for a in v)) for k, v in sc["scripts"].items())]
         res.nontrivial.add(common.digest(shape))
